@@ -315,6 +315,15 @@ def run(tier, seed, t0):
                 other = rnd.choice(groups[(json.dumps(d["dom"]), json.dumps(d["cod"]), len(d["boxes"]))])
                 b0 = A.build(other, 1)
                 rows.append(observe(a0, b0, pa, proj_value(b0, A.names), cls))
+                # the same boxes at the same offsets next to a passive wire of another type: different diagrams
+                try:
+                    m = A.m
+                    tx, ty_ = A.ty([[1, 0]]), A.ty([[2, 0]])
+                    for wa, wb in ((a0 @ m.Id(tx), a1 @ m.Id(ty_)), (m.Id(tx) @ a0, m.Id(ty_) @ a1), (a0 @ m.Id(tx), a1 @ m.Id(tx)),
+                                   (a0, a1 @ m.Id(m.Ty()))):
+                        rows.append(observe(wa, wb, proj_value(wa, A.names), proj_value(wb, A.names), cls))
+                except Exception:
+                    pass
                 # sums of the two
                 try:
                     s1, s2 = a0 + b0, a1 + A.build(other, 0)
